@@ -125,7 +125,7 @@ class G:
         ms = []
         for _ in range(rng.choice([1, 1, 2, 3])):
             ms.append({"k": self.tag(), "var": (rng.choice([None, "w", "x"]) if self.allow_vars else None),
-                       "suppress": rng.random() < 0.4})
+                       "suppress": rng.random() < 0.4, "pre": (self.tag() if rng.random() < 0.3 else None)})
         return ["with", ms, self.body(depth - 1, 0, 2, hv)]
 
 
@@ -134,6 +134,13 @@ def generate(rng, tier):
     g = G(rng, allow_vars=placement in ("top", "call"))
     depth = rng.choice([1, 2, 2, 3])
     root = g.try_(depth) if rng.random() < 0.6 else g.with_(depth)
+    if rng.random() < 0.15:
+        # a handler that contains another try binding the SAME variable name, and reads its own variable afterwards
+        v = rng.choice(["e", "x", "err"])
+        inner = ["try", [g.leaf()], [{"types": ["one", ["T", g.tag(), "Exception"]], "var": v, "body": [["tn", v]]}], None,
+                 ([g.leaf()] if rng.random() < 0.3 else None)]
+        root = ["try", [g.leaf()], [{"types": ["one", ["T", g.tag(), rng.choice(["Exception", "A"])]], "var": v,
+                                     "body": [inner, ["tn", v], g.leaf()]}], None, ([g.leaf()] if rng.random() < 0.3 else None)]
     pre = [g.leaf()] if rng.random() < 0.3 else []
     post = [g.leaf()] if rng.random() < 0.2 else []
     return {"placement": placement, "root": root, "pre": pre, "post": post, "pair_seed": rng.randrange(1 << 30)}
@@ -181,7 +188,10 @@ def hy_src(n):
         return s + ")"
     if t == "with":
         _, ms, body = n
-        items = " ".join((f"{m['var']} " if m["var"] else "_ ") + f"(CM {m['k']} {'True' if m['suppress'] else 'False'})" for m in ms)
+        def mexpr(m):
+            c = f"(CM {m['k']} {'True' if m['suppress'] else 'False'})"
+            return f"(do (E {m['pre']}) {c})" if m.get("pre") else c
+        items = " ".join((f"{m['var']} " if m["var"] else "_ ") + mexpr(m) for m in ms)
         return f"(with [{items}] " + " ".join(hy_src(x) for x in body) + ")"
     raise ValueError(t)
 
@@ -357,6 +367,8 @@ class Ref:
                 state["body_done"] = True
                 return v
             m = ms[i]
+            if m.get("pre"):
+                ref.eff.hit(m["pre"])
             with CM(m) as val:
                 if m["var"]:
                     ref.set(m["var"], val)
